@@ -172,7 +172,23 @@ def call(**kw):
                     purity._count("decoy_solves_rejected")  # a decoy outside the accepted argument space (parity, size): not a verdict
     kw = _spell(kw)
     a = [kw.pop(k) for k in ARGN]
-    return purity.guarded(steady_state_transport_solver, "steady_state_transport_solver")(*a, **kw)
+    res = purity.guarded(steady_state_transport_solver, "steady_state_transport_solver")(*a, **kw)
+    # finiteness monitor: a comparison "error > tolerance" is blind to NaN, so every field returned for finite arguments is looked at
+    # here (footprint mode does not read the source values; a dispersion run of a non-finite source is not judged)
+    try:
+        src_ok = bool(kw.get("footprint", False)) or bool(np.all(np.isfinite(np.asarray(a[0], dtype=float))))
+        args_ok = src_ok and all(np.all(np.isfinite(np.asarray(x, dtype=float))) for x in (a[1], *a[2]))
+        if args_ok:
+            grid, conc, flx = res
+            bad = [nm for nm, arr in (("conc", conc), ("flx", flx), ("X", grid[0]), ("Y", grid[1]), ("Z", grid[2])) if not np.all(np.isfinite(np.asarray(arr)))]
+            purity._count("finiteness_checks")
+            if bad:
+                purity.VIOLATIONS.append({"what": "non_finite_output_for_finite_arguments", "fields": bad,
+                                          "call": {k: (v if isinstance(v, (int, float, str, bool, type(None))) else repr(v)[:60]) for k, v in kw.items()},
+                                          "shape": tuple(np.shape(a[0])), "nz": len(a[1])})
+    except Exception:
+        pass
+    return res
 
 
 def S():
@@ -199,7 +215,7 @@ def as3d(a, nlev):
 
 def relerr(a, b, scale=None):
     a, b = np.asarray(a, dtype=float), np.asarray(b, dtype=float)
-    if a.shape != b.shape:
+    if a.shape != b.shape or not (np.all(np.isfinite(a)) and np.all(np.isfinite(b))):
         return float("inf")
     if scale is None:
         scale = max(float(np.max(np.abs(a))), float(np.max(np.abs(b))), 1e-300)
